@@ -777,7 +777,7 @@ def main():
             judge_component(ck, c, couts[c.cid], qlist, qmeta, hist, pybad, updq, updmeta)
     print("# component screening %.1fs, %d queries, %d update replays, %d solves fail the quick multiply-back" % (time.time() - t1, len(qlist), len(updq), len(pybad)), file=sys.stderr)
     t1 = time.time()
-    BUDGET = 900 if T else 150
+    BUDGET = 900 if T else 200
     # (1) solves that fail the untrusted multiply-back: confirm ONE equation each with the verified checker (tiny queries, first)
     rowq, rowmeta = [], {}
     for k, (c, si, kind, mat, a, x, eq, what) in enumerate(pybad[:40]):
@@ -914,11 +914,17 @@ def main():
     if not pr["ok"]:
         ck.violation("proof.txt", pr["log"], "proof obligation(s) of Properties_C13.v no longer check: %s" % pr["failed"], no_input=not ck.violations)
     ck.cov["rule"] = ("A: LPs (planted, random, degenerate, Beale, near-parallel; <= 9x11 quick) solved by mpq_QSopt_primal/dual under random pricing/scaling, also stopped at an iteration limit and resumed, "
-                      "then sequences of mpq_QSopt_pivotin_row/col; after each: basis order + every binv row + every tableau row judged by the extracted check_binv_row / check_tableau_row against the "
-                      "basis matrix assembled from the internal LP dump.  B: mpq_ILLfactor* driven directly: all 2x2 and all (thorough) / 5000 sampled 3x3 matrices over {-1,0,1,2}; structured matrices "
+                      "then sequences of mpq_QSopt_pivotin_row/col; sparse 60x90 integer LPs: solve, new objective, re-solve, bound changes, re-solve on one object; after each: basis order + every "
+                      "(big LPs: a sample of the) binv rows + tableau rows judged by the extracted check_binv_row / check_tableau_row against the basis matrix assembled from the internal LP dump.  "
+                      "B: mpq_ILLfactor* driven directly: all 2x2 and all (thorough) / 5000 sampled 3x3 matrices over {-1,0,1,2}; structured matrices "
                       "(permuted triangular, dense block, singletons, near-singular 2^-k, rank-deficient, sparse, dense, arrow; n <= 40 quick / 80 thorough; random DENSE_MIN, P, MAX_K, space multipliers); "
-                      "update histories (<= 30 column replacements: sparse/dense/unit columns, copies and combinations of columns, zero columns; small ETAMAX and eta space to force refactorization); "
-                      "after each factor/update ftran/btran of unit, sparse and dense vectors judged by extracted check_ftran/check_btran; singularity compared with the verified elimination. "
+                      "dense integer matrices 30..40 (dense kernel > 25 rows); update histories (<= 30 column replacements: sparse/dense/unit columns, copies and combinations of columns, zero columns; "
+                      "small ETAMAX and eta space to force refactorization); 0/+-1 band matrices of dimension 45..80 with 8-16 sparse replacements (sparse path of ILLfactor_update with exact cancellations); "
+                      "after each factor/update ftran/btran of unit, sparse and dense vectors judged by extracted check_ftran/check_btran; singularity compared with the verified elimination.  "
+                      "C: the struct factor_work is dumped after every factorization and update (n <= 80): extracted struct_ok on every dump, check_repr + model walk for n <= 16 (and the first dump of some large "
+                      "histories), and for every ILLfactor_update between two dumps the extracted update_spike (with the library's spike) / update (own spike) applied to the dump before: the result must equal the "
+                      "dump after (lines as pivot + set of entries, row etas as sets, permutations) and solve alike; refused updates (E_UPDATE_SINGULAR_*) must be refused by the model.  "
+                      "All model runs are under a wall-clock budget; every solve is first screened by an untrusted exact multiply-back, a failing equation is confirmed by the extracted checker.  "
                       "non-trivial = non-singular matrix with at least one judged solve, or a singularity verdict; distinct by script text")
     ck.cov["histogram"] = dict(sorted(hist.items()))
     ck.cov["tableau_rows_judged"] = nrows_judged
@@ -928,8 +934,9 @@ def main():
     ck.cov["exhaustive"] = bool(T)
     ck.cov["evaluations"] = len(cases) + len(comp)
     ck.cov["crashes_seen"] = [dict(case=c_, rc=rc) for c_, rc, e in crashes + ccr]
-    ck.cov["not_covered"] = ("pivot selection, space management and the update routine are explored, not proved; after a solve stopped at an iteration limit the library refuses "
-                             "tableau queries (no cache), so intermediate bases are observed through pivotin sequences and resumed solves only")
+    ck.cov["not_covered"] = ("pivot selection of ILLfactor (Markowitz / dense kernel) and the space management (eta space, refactor requests, E_UPDATE_NOSPACE) are explored, not proved; the sparse "
+                             "path of ILLfactor_update (serow_process) is tied to the proved dense-path model by values only; update replays on dense fractional matrices of dimension 17..40 are sampled; "
+                             "after a solve stopped at an iteration limit the library refuses tableau queries (no cache), so intermediate bases are observed through pivotin sequences and resumed solves only")
     ck.assumptions = ["Coq kernel; extraction (ExtrOcamlBasic) + OCaml compiler", "harness h_fac + text protocol", "GMP = exact rational arithmetic"]
     ck.finish(trusted_base=["coqc 8.16.1 kernel", "OCaml extraction (ExtrOcamlBasic only)", "harness h_fac.c + checks/C13.py + checks/fac_common.py"])
 
